@@ -22,13 +22,14 @@ import lib.repo_env
 lib.repo_env.shim()
 import guppylang  # noqa: E402,F401
 from hugr import tys as ht  # noqa: E402
-from guppylang_internals.checker.core import FieldAccess, TupleAccess, Variable  # noqa: E402
+from guppylang_internals.checker.core import FieldAccess, SubscriptAccess, TupleAccess, Variable  # noqa: E402
+from guppylang_internals.tys.ty import InputFlags  # noqa: E402
 from guppylang_internals.definition.custom import BoolOpCompiler, CustomFunctionDef, NoopCompiler, OpCompiler, RawCustomFunctionDef  # noqa: E402
 from guppylang_internals.definition.declaration import RawFunctionDecl  # noqa: E402
 from guppylang_internals.definition.function import CheckedFunctionDef  # noqa: E402
 from guppylang_internals.engine import DEF_STORE, ENGINE  # noqa: E402
 from guppylang_internals.nodes import (CheckedNestedFunctionDef, FieldAccessAndDrop, GenericParamValue, GlobalCall, LocalCall, PanicExpr, PlaceNode,  # noqa: E402
-                                       TupleAccessAndDrop, TupleUnpack)
+                                       SubscriptAccessAndDrop, TupleAccessAndDrop, TupleUnpack)
 
 M, H = 1 << 64, 1 << 63
 
@@ -51,6 +52,10 @@ class Unsupported(Exception):
 
 class OutOfFuel(Exception):
     pass
+
+
+class OutsideIndex(Exception):
+    """an array index outside [0, n): Python wraps negative indices / raises IndexError, Guppy panics (C19's subject, outside C03/C05)"""
 
 
 def _chk(v):
@@ -129,6 +134,13 @@ class Closure:
         self.node = node
 
 
+class Arr:
+    """an array value (immutable; element updates build a new one)"""
+
+    def __init__(self, vals):
+        self.v = tuple(vals)
+
+
 def op_name(raw):
     o = raw.call_compiler.op(ht.FunctionType([], []), [], None)
     return o.op_def().qualified_name()
@@ -145,9 +157,13 @@ class Interp:
 
     # ------------------------------------------------------------------ calls
     def call_def(self, def_id, args, type_args=()):
+        return self.call_def2(def_id, args, type_args)[0]
+
+    def call_def2(self, def_id, args, type_args=()):
+        """-> (returned value, {argument index: value handed back for a borrowed argument})"""
         raw = DEF_STORE.raw_defs[def_id]
         if isinstance(raw, RawFunctionDecl):
-            return self.rec.call(raw.name)(*args)
+            return self.rec.call(raw.name)(*args), {}
         if isinstance(raw, (RawCustomFunctionDef, CustomFunctionDef)):
             cc = raw.call_compiler
             cn = type(cc).__name__
@@ -157,30 +173,65 @@ class Interp:
                 name = _OPCACHE[def_id]
                 if name not in OPS:
                     raise Unsupported(f"HUGR op {name}")
-                return OPS[name](*args)
+                return OPS[name](*args), {}
             if isinstance(cc, NoopCompiler):
-                return args[0]
+                return args[0], {}
+            if cn == "UnwrapOpCompiler":
+                # an op with an Either result that is unwrapped (panics on the error side): float -> int / nat truncation
+                if def_id not in _OPCACHE:
+                    _OPCACHE[def_id] = op_name(raw)
+                name = _OPCACHE[def_id]
+                if name not in ("arithmetic.conversions.trunc_s", "arithmetic.conversions.trunc_u"):
+                    raise Unsupported(f"unwrapped HUGR op {name}")
+                f = args[0]
+                if f != f or f in (float("inf"), float("-inf")) or not (-9.3e18 < f < 9.3e18) or (name.endswith("_u") and f < 0):
+                    raise Overflow()        # (Python raises OverflowError / ValueError, Guppy panics: outside the compared behaviour)
+                import math
+                return _chk(math.trunc(f)), {}
             if cn == "OptionConstructor":
-                return Opt((args[0],)) if cc.tag == 1 else Opt(None)
+                return (Opt((args[0],)) if cc.tag == 1 else Opt(None)), {}
             if cn == "OptionTestCompiler":
-                return (args[0].v is not None) == (cc.tag == 1)
+                return (args[0].v is not None) == (cc.tag == 1), {}
             if cn == "OptionUnwrapCompiler":
                 if args[0].v is None:
                     raise Panic("unwrap of nothing")
-                return args[0].v[0]
+                return args[0].v[0], {}
             if cn == "OptionUnwrapNothingCompiler":
                 if args[0].v is not None:
                     raise Panic("unwrap_nothing of some")
-                return None
+                return None, {}
             if cn == "ConstructorCompiler":
-                return Struct(args)
+                return Struct(args), {}
+            # ---- arrays of copyable elements: immutable Python tuples, updated functionally (arrays are affine, so no aliasing)
+            if cn == "NewArrayCompiler":
+                return Arr(args), {}
+            if cn == "ArrayGetitemCompiler":
+                a, i = args
+                if not (0 <= i < len(a.v)):
+                    raise OutsideIndex()
+                return a.v[i], {0: a}
+            if cn == "ArraySetitemCompiler":
+                a, i, v = args
+                if not (0 <= i < len(a.v)):
+                    raise OutsideIndex()
+                return None, {0: Arr(a.v[:i] + (v,) + a.v[i + 1:])}
+            if cn == "CopyInoutCompiler":
+                return args[0], {0: args[0]}
+            if cn == "ArrayDiscardAllUsedCompiler":
+                return None, {}
             raise Unsupported(f"custom function {raw.name} compiled by {cn}")
         chk = self.checked.get(def_id)
         if isinstance(chk, CheckedFunctionDef):
-            return self.run_cfg(chk.cfg, args, chk.ty.input_names, self._inst(type_args))
+            names = chk.ty.input_names
+            ret, env = self.run_cfg(chk.cfg, args, names, self._inst(type_args), want_env=True)
+            upd = {}
+            for i, inp in enumerate(chk.ty.inputs):
+                if InputFlags.Inout in inp.flags:
+                    upd[i] = env[names[i]]        # a borrowed argument is handed back as the callee left it
+            return ret, upd
         kind = type(chk).__name__ if chk is not None else type(raw).__name__
         if "Constructor" in kind or "constructor" in str(getattr(raw, "description", "")):
-            return Struct(args)
+            return Struct(args), {}
         raise Unsupported(f"definition {getattr(raw, 'name', '?')} of kind {kind}")
 
     def _inst(self, type_args):
@@ -206,7 +257,20 @@ class Interp:
             return s.f[[f.name for f in place.parent.ty.fields].index(place.field.name)]
         if isinstance(place, TupleAccess):
             return self.read(env, place.parent)[place.index]
+        if isinstance(place, SubscriptAccess):
+            # as ExprCompiler.visit_PlaceNode: the index is evaluated once per block and named, then `__getitem__` is called on
+            # (parent place, index place); the call hands the borrowed parent back
+            self._item(env, place)
+            if place.getitem_call is None:
+                raise Unsupported("subscript place without a getitem call read")
+            return self.ev(env, place.getitem_call)
         raise Unsupported(type(place).__name__)
+
+    def _item(self, env, place):
+        done = env.setdefault("%items", set())
+        if place.item.name not in done:
+            done.add(place.item.name)
+            env[place.item.name] = self.ev(env, place.item_expr)
 
     def write(self, env, place, val):
         if isinstance(place, Variable):
@@ -223,6 +287,14 @@ class Interp:
             t[place.index] = val
             self.write(env, place.parent, tuple(t))
             return
+        if isinstance(place, SubscriptAccess):
+            # as StmtCompiler._assign_place / ExprCompiler._update_inout_ports: index (once per block), then `__setitem__`
+            if place.setitem_call is None:
+                raise Unsupported("subscript place without a setitem call written")
+            self._item(env, place)
+            env[place.setitem_call.value_var.name] = val
+            self.ev(env, place.setitem_call.call)
+            return
         raise Unsupported(type(place).__name__)
 
     # ------------------------------------------------------------------ expressions
@@ -234,7 +306,17 @@ class Interp:
         if isinstance(n, ast.Tuple):
             return tuple(self.ev(env, e) for e in n.elts)
         if isinstance(n, GlobalCall):
-            return self.call_def(n.def_id, [self.ev(env, a) for a in n.args], n.type_args)
+            val, upd = self.call_def2(n.def_id, [self.ev(env, a) for a in n.args], n.type_args)
+            for i, newv in upd.items():
+                a = n.args[i]
+                if isinstance(a, PlaceNode):       # (a borrowed argument that is not a place is dropped after the call)
+                    self.write(env, a.place, newv)
+            return val
+        if isinstance(n, SubscriptAccessAndDrop):
+            # as ExprCompiler.visit_SubscriptAccessAndDrop: the index is evaluated and named *first*, then the `__getitem__` call
+            # (whose first argument is the container expression) is evaluated
+            env[n.item.name] = self.ev(env, n.item_expr)
+            return self.ev(env, n.getitem_expr)
         if isinstance(n, LocalCall):
             f = self.ev(env, n.func)
             args = [self.ev(env, a) for a in n.args]
@@ -281,15 +363,15 @@ class Interp:
 
     generics: dict = {}
 
-    def run_cfg(self, cfg, args, names=None, generics=None):
+    def run_cfg(self, cfg, args, names=None, generics=None, want_env=False):
         saved = self.generics
         self.generics = generics or {}
         try:
-            return self._run_cfg(cfg, args, names)
+            return self._run_cfg(cfg, args, names, want_env)
         finally:
             self.generics = saved
 
-    def _run_cfg(self, cfg, args, names=None):
+    def _run_cfg(self, cfg, args, names=None, want_env=False):
         if names is None:
             names = [v.name for v in cfg.entry_bb.sig.input_row]
         env = dict(zip(names, args, strict=True))
@@ -298,6 +380,7 @@ class Interp:
             self.fuel -= 1
             if self.fuel < 0:
                 raise OutOfFuel()
+            env["%items"] = set()        # (the compiler's per-block container: index temporaries are evaluated once per block)
             for s in bb.statements:
                 if isinstance(s, ast.Assign):
                     self.assign(env, s.targets[0], self.ev(env, s.value))
@@ -314,7 +397,7 @@ class Interp:
                 else:
                     raise Unsupported(type(s).__name__)
             if bb is cfg.exit_bb or not bb.successors:
-                return ret
+                return (ret, env) if want_env else ret
             if len(bb.successors) > 1:
                 bb = bb.successors[1] if self.ev(env, bb.branch_pred) else bb.successors[0]
             else:
